@@ -44,7 +44,8 @@ ASSUMPTIONS = [
 REQUIRED = ["transform_calls", "rotations_checked", "scales_checked", "translations_checked",
             "centre_root_far", "centre_origin", "root_not_at_position_0", "instance_reused",
             "inverse_checked", "isometry_checked", "builders_checked", "composed_checked",
-            "classmethod_checked", "translate_origin_checked", "singular_scalings", "tap_apply"]
+            "classmethod_checked", "translate_origin_checked", "singular_scalings", "tap_apply",
+            "edited_in_place_then_transformed"]
 FLOOR = {"quick": 1200, "thorough": 25000}
 SHARDS = {"quick": 8, "thorough": 16}
 TOL = 3e-5
@@ -241,6 +242,26 @@ def _exec(ctx, case):
             return ctx.violation("call-history-dependence", "applying the same transform to the same "
                                                             "tree again gave different coordinates",
                                  case)
+        # the caller edits the first tree in place (node handle / column write) and transforms it
+        # again: the stated map applies to the tree as it is *now*
+        if case.get("edit") and len(trees[0]) >= 2:
+            tr = trees[0]
+            for (pos, col, val, how) in case["edit"]:
+                pos = int(pos) % len(tr)
+                if how == "node":
+                    setattr(tr.node(pos), col, np.float32(val))
+                elif how == "item":
+                    tr[pos][col] = np.float32(val)
+                else:
+                    tr.ndata[col][pos] = np.float32(val)
+            fps[0] = contracts.fingerprint(tr)
+            out = tf(tr)
+            ctx.count("transform_calls")
+            ctx.count("edited_in_place_then_transformed")
+            if _compare(ctx, case, f"{type(tf).__name__} after an in-place coordinate edit of the "
+                                   f"same tree object", tr, out, t, eff):
+                return
+            outs[0] = out
         # inverse (built by the harness) restores the original coordinates
         if t["kind"] == "affine" and eff != "origin" and np.abs(np.array(t["m"])[:3, 3]).max() > 0:
             return  # the root itself moves: "inverse about the (moved) root" is another map
@@ -411,6 +432,13 @@ def run(ctx):
                 case["t_second"] = draw_transform(rng)
             if form == "origin":
                 case["origin_call"] = bool(rng.random() < 0.5)
+            if form == "instance" and rng.random() < 0.35:
+                case["edit"] = [[int(rng.integers(0, 1000)), str(rng.choice(["x", "y", "z"])),
+                                 float(np.round(rng.normal(0, 30), 3)),
+                                 str(rng.choice(["node", "item", "ndata"]))]
+                                for _ in range(int(rng.integers(1, 4)))]
+                if rng.random() < 0.5:   # move the root itself: the centre changes
+                    case["edit"][0][0] = 0
             ctx.case(case, nontrivial=rc["n"] >= 2, klass=f"{t['kind']}/{form}")
             execute(ctx, case)
     ctx.count("tap_apply", tap.counts["apply"])
